@@ -10,13 +10,13 @@ PROP = {
     ],
     "assumptions": [
         "the kernel interactions (one read of /proc/self/mountinfo, one mount(2), one umount(2)) are atomic; interleavings inside them are not considered",
-        "scenarios: one base layer with 1-3 bind imports (flat or nested mountpoints), and chains b0 <- d0 (<- d1) with 1-2 imports per layer, some layers mounted beforehand; commands mount, umount and chroot (umount -all and shake are not interleaved)",
+        "scenarios: one base layer with 1-3 bind imports (flat or nested mountpoints), and chains b0 <- d0 (<- d1) with 1-2 imports per layer, some layers mounted beforehand; and forests of two families a <- a2, b <- c; commands mount, umount, chroot and umount -all (its visiting order is taken from the implementation; shake is not interleaved)",
     ],
-    "rule": "all 64 schedules of length 6 for mount/mount on one target (exhaustive), plus random cases: 1-3 targets, mount|umount x mount|umount, layer pre-mounted or not, random schedules of 2-13 turns; chains of 2-3 layers with mount (50%) / chroot (25%) / umount (25%) of any layer of the chain, random schedules or one process running entirely between two kernel interactions of the other, one or two later umounts; chroot reading the table at each of 8 cut points of the other process's mount of the same derived layer; the rest of each process runs to completion after the schedule. The oracle asks whether the implementation's final mount table equals the result of one of the two serial orders (computed by the model). distinct = distinct case JSON.",
+    "rule": "all 64 schedules of length 6 for mount/mount on one target (exhaustive), plus random cases: 1-3 targets, mount|umount x mount|umount, layer pre-mounted or not, random schedules of 2-13 turns; chains of 2-3 layers with mount (50%) / chroot (25%) / umount (25%) of any layer of the chain, random schedules or one process running entirely between two kernel interactions of the other, one or two later umounts; chroot reading the table at each of 8 cut points of the other process's mount of the same derived layer; forests: umount -all against mount a2 / chroot c with the other process running entirely at each of 10 cut points, and random forest cases (umount -all against mount|chroot|umount of any layer, random pre-mounted subset, optional later umount -all); the rest of each process runs to completion after the schedule. The oracle asks whether the implementation's final mount table equals the result of one of the two serial orders (computed by the model). distinct = distinct case JSON.",
 }
 
 META = {
-    "text": "The property does not hold for the code (no lock between check and mount): the negation is proved with concrete schedules (c20_counterexample: probe0 probe1 mount0 mount1 stacks two mounts on one mountpoint; c20_counterexample_mount_umount), replayed against the real code on every run and recorded as a known finding. What holds for every schedule is proved: turn_effect (one turn leaves the table alone, adds exactly one mount whose target the process's own cache did not show, removes exactly one mount, or gives up — stacking needs a stale cache), probe_is_snapshot, ensure_skips_cached, fresh_cache_no_mount, chroot_mounted_no_mount (chroot into a layer the fresh table shows fully mounted does nothing more), chroot_unmounted_as_mount (otherwise it continues exactly as mount of the chain); later_umount_cleans_counterexample (with fix 8d11829 one later umount removes both stacked mounts). The interleaving model is tied to the real code by running two real command instances under a deterministic scheduler.",
+    "text": "The property does not hold for the code (no lock between check and mount): the negation is proved with concrete schedules (c20_counterexample: probe0 probe1 mount0 mount1 stacks two mounts on one mountpoint; c20_counterexample_mount_umount), replayed against the real code on every run and recorded as a known finding. What holds for every schedule is proved: turn_effect (one turn leaves the table alone, adds exactly one mount whose target the process's own cache did not show, removes exactly one mount, or gives up — stacking needs a stale cache), probe_is_snapshot, ensure_skips_cached, fresh_cache_no_mount, chroot_mounted_no_mount (chroot into a layer the fresh table shows fully mounted does nothing more), chroot_unmounted_as_mount (otherwise it continues exactly as mount of the chain), allLayer_busy_skipped / allLayer_unmounted_passed / failIfBusy_fails (umount -all: a layer under a child's overlay is skipped without a call, a layer the first reading showed unmounted is passed over, a skipped layer makes the command fail); later_umount_cleans_counterexample (with fix 8d11829 one later umount removes both stacked mounts). The interleaving model is tied to the real code by running two real command instances under a deterministic scheduler.",
     "design_ref": "§4 C20",
     "note": "Known finding no-lock-between-check-and-mount: every non-serial outcome is attributed to it, provided the model predicts exactly that outcome for that schedule (a disagreement between model and code is still reported). A repair needs an inter-process lock (not small). Serialisability of non-interfering schedules is proved only in the form of the per-turn lemmas; a general theorem over all schedules in which the two processes do not overlap is not proved.",
     "technique": "Lean 4 proof (negation by kernel evaluation of concrete schedules; per-turn lemmas by induction on fuel) + scheduled differential runs of two real command instances",
